@@ -4,6 +4,8 @@
 #pragma once
 
 #include "../../common.h"
+// std
+#include <memory>
 // enkiTS
 #include "enkiTS/TaskScheduler.h"
 
@@ -63,7 +65,13 @@ namespace rkcommon {
           void ExecuteRange(enki::TaskSetPartition, uint32_t) override
           {
             t();
-            delete this;
+            // The scheduler still decrements m_RunningCount of this task after
+            // ExecuteRange() returns, so it must not be deleted here. Hand it
+            // to a per-thread slot instead: this reclaims the task this thread
+            // finished before (whose decrement has long happened, in program
+            // order of this thread); the last one is reclaimed at thread exit.
+            static thread_local std::unique_ptr<Task> lastFinished;
+            lastFinished.reset(this);
           }
         };
 
